@@ -48,6 +48,7 @@ class Result:
         self.wall = 0.0
         self.outcomes = {}
         self.samples = []
+        self.lemmas = []
 
     def ok(self):
         if self.unsupported:
@@ -84,6 +85,7 @@ class Result:
             'covers': self.covers,
             'outcomes': self.outcomes,
             'unsupported': self.unsupported[:3],
+            'lemmas': self.lemmas,
         }
 
 
@@ -120,6 +122,13 @@ class ScenarioInterp(Interp):
             raise Unsupported('entry function not found: ' + fname)
         return self.call_fn(f, args)
 
+    def try_call_method(self, callee, args):
+        """call through the normal callee dispatch (models / impl resolution)"""
+        try:
+            return 'ok', self.call_callee(callee, args, None)
+        except RustPanic as e:
+            return 'panic', e.msg
+
     def try_call(self, fname, args, crate=None):
         """returns ('ok', value) or ('panic', msg)"""
         try:
@@ -135,9 +144,9 @@ class ScenarioInterp(Interp):
             rec.unsat += 1
             return True
         t0 = time.time()
-        self.ctx.s.set('timeout', self.check_timeout_ms)
+        self.ctx.set_timeout(self.check_timeout_ms)
         r = self.ctx.check(smt.Not(prop) if not isinstance(prop, bool) else True)
-        self.ctx.s.set('timeout', self.ctx.timeout_ms)
+        self.ctx.set_timeout(self.ctx.timeout_ms)
         rec.time += time.time() - t0
         if r == 'unsat':
             rec.unsat += 1
@@ -150,11 +159,22 @@ class ScenarioInterp(Interp):
         rec.unknown += 1
         return False
 
-    def cover(self, label):
-        """reachability witness: this point was reached on a feasible path"""
+    def cover(self, label, hint=None):
+        """reachability witness: this point was reached on a feasible path.  `hint` (input name ->
+        value) pins inputs so that the witness query becomes easy when the free query is not decided"""
         if self.result.covers.get(label):
             return
-        self.result.covers[label] = (self.ctx.check() == 'sat')
+        r = self.ctx.check()
+        if r != 'sat' and hint:
+            eqs = [self.inputs[k] == v for k, v in hint.items() if k in self.inputs]
+            r = self.ctx.check(z3.And(*eqs)) if eqs else r
+        self.result.covers[label] = (r == 'sat')
+
+    def lemma(self, cond, because):
+        """assume a fact established by another obligation of the same run (assume-guarantee)"""
+        if because not in self.result.lemmas:
+            self.result.lemmas.append(because)
+        self.assume(cond)
 
     def outcome(self, label):
         self.result.outcomes[label] = self.result.outcomes.get(label, 0) + 1
